@@ -188,7 +188,7 @@ def value_atom(fn_node, subject, value, sets=None, other=None):
     return atom
 
 
-def reaching_defs(g, at, name):
+def reaching_defs(g, at, name, with_params=False, with_aug=True):
     """CFG nodes whose statement binds the local `name` (plain or tuple assignment) and from which `at` can be reached without passing another
     binding of `name`: the definitions that can supply the value `name` has at `at`"""
     import ast as _ast
@@ -196,6 +196,12 @@ def reaching_defs(g, at, name):
     for n in g.nodes:
         if n.kind == 'stmt' and isinstance(n.ast, (_ast.Assign, _ast.AnnAssign)):
             if any(isinstance(t, _ast.Name) and t.id == name for t, _v in assign_pairs(n.ast)): defs.append(n)
+        elif with_aug and n.kind == 'stmt' and isinstance(n.ast, _ast.AugAssign) and isinstance(n.ast.target, _ast.Name) and n.ast.target.id == name: defs.append(n)
+        elif n.kind == 'iter' and isinstance(n.ast, (_ast.For, _ast.AsyncFor)) and any(isinstance(x, _ast.Name) and x.id == name for x in _ast.walk(n.ast.target)): defs.append(n)
+    fn_node = getattr(g, 'fn_node', None)
+    if with_params and fn_node is not None and name in [a.arg for a in fn_node.args.args + fn_node.args.kwonlyargs + fn_node.args.posonlyargs] + \
+            [a.arg for a in (fn_node.args.vararg, fn_node.args.kwarg) if a is not None]:
+        defs.append(g.entry)
     out = []
     for d in defs:
         others = [x for x in defs if x is not d]
@@ -205,6 +211,8 @@ def reaching_defs(g, at, name):
 
 def value_of_def(defnode, name):
     """the expression assigned to `name` by the assignment at CFG node `defnode` (None when it cannot be paired)"""
+    import ast as _ast
+    if defnode.ast is None or not isinstance(defnode.ast, (_ast.Assign, _ast.AnnAssign)) or defnode.kind != 'stmt': return None
     for t, v in assign_pairs(defnode.ast):
         if getattr(t, 'id', None) == name: return v
     return None
